@@ -75,7 +75,7 @@ tbl += (f"\n\n{n} changes from 46 sub-agent runs (round 1: two per property, 36;
         "the patch applies to /repo, the 302 tests pass with it, the agent's demonstration exits 1 with it and 0 without it. "
         f"{first} were reported by the property's quick check as it stood; the others were missed at first and are caught after the named strengthening of a "
         "generator or oracle (nothing was special-cased to a seed; where an oracle was changed it was made stricter or independent of the implementation), "
-        "except C03-r2-1, which only the C01 check sees. Twenty changes of rounds 1 and 2 had been recorded as caught in earlier sessions on the strength of a "
+        "except C03-r2-1, which only the C01 check sees, and C06-r3-1, which fix c8c087c made harmless (it was caught before that fix). Twenty changes of rounds 1 and 2 had been recorded as caught in earlier sessions on the strength of a "
         "check that had failed for another reason (a stale build, 0.6); all 92 were therefore run again from a clean state at the end, with the checks as "
         "committed: `seeded/<id>/result.json` holds that run. A patch that no longer applied after a later `fix:` commit was rebased by hand onto the "
         "current code (same change, same demonstration).")
